@@ -3504,6 +3504,15 @@ namespace bloch::runtime {
         // map in place (inside pop_back) would let that re-enter a vector that is mid-update.
         auto dying = std::move(m_env.back());
         m_env.pop_back();
+        // Let the values die in reverse order of declaration. Leaving it to the map's destructor
+        // would run destructors in the hash order of the variables' names, so that renaming a
+        // local could change a program's output.
+        std::vector<VarEntry*> entries;
+        entries.reserve(dying.size());
+        for (auto& kv : dying) entries.push_back(&kv.second);
+        std::sort(entries.begin(), entries.end(),
+                  [](const VarEntry* a, const VarEntry* b) { return a->order > b->order; });
+        for (auto* entry : entries) entry->value = Value{};
     }
 
     void RuntimeEvaluator::flushEchoes() {
